@@ -33,6 +33,8 @@ mod decision_tracker;
 mod diagnostics;
 mod encoding;
 pub(crate) mod variable_map;
+#[cfg(feature = "verif-hooks")]
+pub mod verif;
 mod watch_map;
 
 /// Describes the problem that is to be solved by the solver.
@@ -128,6 +130,8 @@ pub(crate) struct Clauses {
 impl Clauses {
     pub fn alloc(&mut self, watched_literals: Option<WatchedLiterals>, kind: Clause) -> ClauseId {
         let id = ClauseId::from_usize(self.kinds.len());
+        #[cfg(feature = "verif-hooks")]
+        verif::clause_added(self.kinds.len(), &kind);
         self.kinds.push(kind);
         self.watched_literals.push(watched_literals);
         id
@@ -392,6 +396,8 @@ impl<D: DependencyProvider, RT: AsyncRuntime> Solver<D, RT> {
             .next_back()
             .map(|decision| self.state.decision_tracker.level(decision.variable))
             .unwrap_or(0);
+        #[cfg(feature = "verif-hooks")]
+        verif::run_sat(root_solvable, starting_level);
 
         let mut level = starting_level;
 
@@ -589,6 +595,8 @@ impl<D: DependencyProvider, RT: AsyncRuntime> Solver<D, RT> {
                 self.analyze_unsolvable(clause_id),
             ))
         } else {
+            #[cfg(feature = "verif-hooks")]
+            verif::soft_fail(solvable_or_root, clause_id);
             self.state.decision_tracker.undo_until(starting_level);
             self.state
                 .decision_tracker
@@ -1230,6 +1238,8 @@ impl<D: DependencyProvider, RT: AsyncRuntime> Solver<D, RT> {
         debug_assert_eq!(highest_level, 1);
 
         let mut conflict = Conflict::default();
+        #[cfg(feature = "verif-hooks")]
+        verif::unsolvable(clause_id);
 
         tracing::debug!("=== ANALYZE UNSOLVABLE");
 
@@ -1394,6 +1404,8 @@ impl<D: DependencyProvider, RT: AsyncRuntime> Solver<D, RT> {
 
         // Add the clause
         let learnt_id = self.state.learnt_clauses.alloc(learnt.clone());
+        #[cfg(feature = "verif-hooks")]
+        verif::learnt(learnt_id, &learnt, &learnt_why);
         self.state.learnt_why.insert(learnt_id, learnt_why);
 
         let (watched_literals, kind) = WatchedLiterals::learnt(learnt_id, &learnt);
